@@ -1333,12 +1333,61 @@ func lastTwoWordsOfStatement(sql string) (second string, last string) {
 	return words[len(words)-2], words[len(words)-1]
 }
 
-func isSQLNotAllowedByUser(c *SessionExecutor, stmtType int) bool {
+func isSQLNotAllowedByUser(c *SessionExecutor, stmtType int, sql string) bool {
 	if c.GetNamespace().IsAllowWrite(c.user) {
 		return false
 	}
 
-	return stmtType == parser.StmtDelete || stmtType == parser.StmtInsert || stmtType == parser.StmtUpdate
+	switch stmtType {
+	case parser.StmtDelete, parser.StmtInsert, parser.StmtUpdate, parser.StmtReplace, parser.StmtDDL:
+		return true
+	}
+	// parser.Preview only looks at the first blank-separated word, which is not how MySQL reads
+	// the statement: check the keyword the backend would see
+	return writeKeywords[leadingKeyword(sql)]
+}
+
+// writeKeywords are the leading keywords of statements that modify data or schema
+var writeKeywords = map[string]bool{
+	"insert": true, "replace": true, "update": true, "delete": true, "load": true,
+	"create": true, "alter": true, "drop": true, "truncate": true, "rename": true,
+}
+
+// leadingKeyword returns the lower-cased first keyword of sql as MySQL reads it: after blanks,
+// comments (/* */, -- and #), opening parentheses and the opening of an executable comment (/*!50700 ...),
+// ending at the first byte that is not a letter.
+func leadingKeyword(sql string) string {
+	i := 0
+	for i < len(sql) {
+		switch ch := sql[i]; {
+		case ch == ' ' || ch == '\t' || ch == '\n' || ch == '\r' || ch == '\f' || ch == '\v' || ch == '(':
+			i++
+		case ch == '#' || (ch == '-' && strings.HasPrefix(sql[i:], "--")):
+			end := strings.IndexByte(sql[i:], '\n')
+			if end == -1 {
+				return ""
+			}
+			i += end + 1
+		case strings.HasPrefix(sql[i:], "/*!"):
+			i += 3
+			for i < len(sql) && sql[i] >= '0' && sql[i] <= '9' {
+				i++
+			}
+		case strings.HasPrefix(sql[i:], "/*"):
+			end := strings.Index(sql[i+2:], "*/")
+			if end == -1 {
+				return ""
+			}
+			i += end + 4
+		default:
+			j := i
+			for j < len(sql) && ((sql[j] >= 'a' && sql[j] <= 'z') || (sql[j] >= 'A' && sql[j] <= 'Z')) {
+				j++
+			}
+			return strings.ToLower(sql[i:j])
+		}
+	}
+	return ""
 }
 
 // 旧版本，这边有个版本对比的函数性能比较差，qps 大时损耗比较严重遂去掉，Contains 比 HasSuffix 性能差，去掉
